@@ -165,5 +165,12 @@ def prune_cache(keep=150):
         return
     ds = [os.path.join(base, d) for d in os.listdir(base)]
     ds.sort(key=os.path.getmtime, reverse=True)
+    now = time.time()
     for d in ds[keep:]:
+        # never remove a fact set that another check process may still be reading (parallel regression runs)
+        try:
+            if now - os.path.getmtime(d) < 3 * 3600:
+                continue
+        except OSError:
+            continue
         shutil.rmtree(d, ignore_errors=True)
